@@ -298,7 +298,7 @@ func ext۰reflect۰Value۰MapIndex(fr *frame, args []value) value {
 	k := rV2V(args[1])
 	switch m := rV2V(args[0]).(type) {
 	case *omap:
-		if v, ok := m.lookup(k); ok {
+		if v, ok := m.lookup(fr.i, k); ok {
 			return makeReflectValue(tValue, v)
 		}
 
